@@ -154,7 +154,7 @@ func cfgStrings(cfg map[string]any, key string) []string {
 		}
 		return nil
 	}
-	var out []string
+	out := []string{} // an empty list is a configuration of its own (no raw-text / void elements), not "unset"
 	for _, x := range xs {
 		if s, ok := x.(string); ok {
 			out = append(out, s)
